@@ -17,7 +17,7 @@ func genC08(t *rapid.T) *Case {
 	p := articleProfile()
 	p.Title = false // no title: a content block is never rendered empty
 	media := []wc{{"figure", 10}, {"img", 10}, {"picture", 5}, {"lazy", 4}, {"video", 8}, {"youtube", 5}, {"vimeo", 4}, {"tweet", 4},
-		{"tweetframe", 3}, {"dtable", 8}, {"inlineimg", 5}, {"chrome", 8}, {"links", 5}, {"texttable", 8}}
+		{"tweetframe", 3}, {"dtable", 8}, {"inlineimg", 5}, {"chrome", 8}, {"links", 5}, {"texttable", 8}, {"separator", 10}, {"aside", 4}}
 	p.Top = append(append([]wc{}, p.Top...), media...)
 	p.Core = append(append([]wc{}, p.Core...), media...)
 	p.Nested = append(append([]wc{}, nestedText...), wc{"figure", 6}, wc{"video", 4}, wc{"youtube", 3}, wc{"dtable", 4}, wc{"img", 6})
@@ -135,6 +135,9 @@ func sourceMediaEvents(doc *html.Node) []mediaEvt {
 		case html.TextNode:
 			if tk := textTokens(n.Data); len(tk) > 0 {
 				prev = tk[len(tk)-1]
+			} else if f := strings.Fields(n.Data); len(f) > 0 {
+				// a text block without words (a separator such as "****") is still a text block
+				prev = "SEP:" + f[len(f)-1]
 			}
 			return
 		case html.ElementNode:
@@ -172,6 +175,11 @@ func checkC08(c *Case) (*Violation, caseInfo) {
 		return nil, info
 	}
 	kept := tokenSet(textTokens(out.Res.Text))
+	for _, w := range strings.Fields(out.Res.Text) {
+		if !rxToken.MatchString(w) {
+			kept["SEP:"+w] = true
+		}
+	}
 	outHTML := render(out.Res.Node)
 	outToks := tokenSet(textTokens(outHTML))
 	var viol *Violation
